@@ -193,6 +193,15 @@ def mix_tasks(prop, tier, rounds_q=1, rounds_t=6):
             for alg in HASH_ALGS for f in fams[alg]]
 
 
+def lanes_tasks(prop, tier):
+    """every lane of a manager holds >= 2^24 blocks at the same time (thorough: two rounds)"""
+    fams = dict(sha1=["sse", "avx", "avx2", "avx512", "sse_ni", "avx512_ni"], sha256=["sse", "avx", "avx2", "avx512", "sse_ni", "avx512_ni"],
+                sha512=["sse", "avx", "avx2", "avx512"], md5=["sse", "avx", "avx2", "avx512"], sm3=["avx2", "avx512"])
+    return [dict(engine="hashmb", variant="plain", timeout=3000,
+                 args=["--prop", prop, "--mode", "big", "--alg", alg, "--fam", f, "--thr", "lanes", "--rounds", 1 if tier == "quick" else 2, "--watchdog", 2900])
+            for alg in HASH_ALGS for f in fams[alg]]
+
+
 def pairs_tasks(prop):
     return [dict(engine="hashmb", variant="plain", timeout=3000, args=["--prop", prop, "--mode", "big", "--alg", alg, "--thr", "pairs", "--watchdog", 2900]) for alg in HASH_ALGS]
 
@@ -368,7 +377,8 @@ GCM_FAMS = ["sse", "avx_gen2", "avx_gen4", "vaes_avx512"]
 AES_TRUST = TRUST + ["OpenSSL 3.0 EVP as second oracle for inputs longer than 4-8 KiB; ref, OpenSSL and published vectors are cross-checked at start-up"]
 
 HIST_RULE = ("each case is a seeded random history (pool of 1..3L contexts, 10-80 submit/flush calls, boundary-biased segment lengths, "
-             "zero-length segments, context reuse, mid-stream restarts, injected invalid submits) run on every (algorithm, family) pair "
+             "zero-length segments, context reuse, mid-stream restarts, injected invalid submits; a fifth of the messages lie across a 4 GiB-aligned address "
+             "in the plain build, counter messages_across_4GiB_boundary) run on every (algorithm, family) pair "
              "through three routes (family symbols, isal_ API and legacy API forced onto the family by the virtual-CPU hook); "
              "distinct_nontrivial counts distinct tuples of (call kind, flags, contexts in flight before the call, segment-length class, "
              "context state, who was handed back) and, for completions, (final length mod 2 blocks, lanes in use, returned-by)")
@@ -377,9 +387,10 @@ CHECKS = {
     "C01": dict(
         technique="runtime differential oracle: reference/OpenSSL digest of the model's byte stream for every completed job over seeded submit/flush histories on all 28 families x 3 routes, lane-magnitude probe, AddressSanitizer build",
         level="exploration", evaluations="completes", must_observe=["completes", "returned_by_other", "returned_by_flush", "reuses"],
-        rule=HIST_RULE + "; evaluations = completed jobs whose digest was compared with the reference hash of the model's byte stream",
+        rule=HIST_RULE + "; evaluations = completed jobs whose digest was compared with the reference hash of the model's byte stream; in addition, per SIMD (algorithm, family), a manager whose lanes all hold "
+             "single segments of at least 2^24 blocks at the same time (distinct lengths, OpenSSL streaming oracle), and the lane-magnitude probe described under C06",
         assumptions=TRUST,
-        tasks=lambda tier: hash_tasks("C01", 1500, 60000, 5, variants=("plain", "asan"))(tier) + pairs_tasks("C01") + (mix_tasks("C01", tier) if tier == "thorough" else []),
+        tasks=lambda tier: hash_tasks("C01", 1500, 60000, 5, variants=("plain", "asan"))(tier) + pairs_tasks("C01") + lanes_tasks("C01", tier) + (mix_tasks("C01", tier) if tier == "thorough" else []),
     ),
     "C06": dict(
         technique='online history checker: sequential job-accounting model at the call boundary + manager count/owner invariants, lane-magnitude probe, AddressSanitizer build',
